@@ -19,53 +19,74 @@ Section Refine.
     | OBool b, OBool b' => b = b'
     | OInst l, OInst l' => Permutation l l'
     | ONone, ONone => True
+    | OErr, OErr => True
     | _, _ => False
     end.
 
-  (* the queried types are not their own descendants (always true of Python classes) *)
-  Definition acyclic_op (o : op) : Prop :=
-    match o with QueryG T | QueryE T => desc_b children fuel T T = false | _ => True end.
+  (* no class is its own descendant (always true of Python classes) *)
+  Definition acyclic : Prop := forall T, desc_b children fuel T T = false.
+
+  Lemma eval_perm s T : Inv s -> AllReg (live s) (g s) -> acyclic ->
+    Permutation (dedupo (instances children fuel (live s) (sweep (live s) (g s)) T))
+                (map Some (spec_query children fuel (live s) T)).
+  Proof.
+    intros HI HA Hac.
+    assert (P : Permutation (instances children fuel (live s) (sweep (live s) (g s)) T) (map Some (spec_query children fuel (live s) T))).
+    { apply instances_perm; auto.
+      + apply sweep_inv, HI. + apply HI. + apply sweep_swept. + apply AllReg_sweep; auto. apply HI. }
+    rewrite dedupo_NoDup_id; auto. eapply once_each; eauto. apply HI.
+  Qed.
+
+  Lemma out_rel_eq x y : out_rel x y -> match x with OInst _ => False | _ => True end -> out_eq x y.
+  Proof. destruct x, y; simpl; auto; tauto. Qed.
 
   Lemma step_refine s a o :
-    Inv s -> AllReg (live s) (g s) -> adm s o = true -> is_eval o = false -> acyclic_op o -> Sim s a ->
+    Inv s -> AllReg (live s) (g s) -> adm s o = true -> is_live o = false -> acyclic -> Sim s a ->
     out_eq (snd (step s o)) (snd (sstep a o)).
   Proof.
     intros HI HA Ha He Hac HS.
     destruct (step_Sim children fuel s a o HI Ha He HS) as [_ Hout].
-    destruct o as [c p i|x| |T|T|T|k|x f y ia ib|]; try discriminate; try exact Hout.
+    destruct o as [c p i|x| |T|T|T|k|k|n y|n|x f y ia ib|]; try discriminate.
+    - apply out_rel_eq; [exact Hout|exact I].
+    - apply out_rel_eq; [exact Hout|simpl; destruct (pinned (evals s) x); exact I].
+    - apply out_rel_eq; [exact Hout|exact I].
     - (* QueryG *) simpl. rewrite <- (sim_live _ _ HS).
       apply instances_perm; auto.
       + apply sweep_inv, HI. + apply HI. + apply sweep_swept. + apply AllReg_sweep; auto. apply HI.
-    - (* Relate *) revert Hout. simpl.
-      destruct (relate _ _ _ _ _ _ _) as [r [nw|]]; destruct (mem_obj x (a_live a) && mem_obj y (a_live a)); simpl;
-        try destruct (existsb _ _); simpl; auto.
+    - (* QueryE *) simpl. rewrite <- (sim_live _ _ HS). now apply eval_perm.
+    - apply out_rel_eq; [exact Hout|exact I].
+    - (* EvalV *) simpl. rewrite <- (sim_vars _ _ HS), <- (sim_live _ _ HS).
+      destruct (nth_error (vars s) k); simpl; auto. now apply eval_perm.
+    - (* Relate *) apply out_rel_eq; [exact Hout|simpl; destruct (relate _ _ _ _ _ _ _) as [r [nw|]]; exact I].
+    - apply out_rel_eq; [exact Hout|exact I].
   Qed.
 
-  Definition in_F (h : list op) : bool := no_eval h && no_clear h.
+  (* F: the graph is not re-created and every evaluation is complete *)
+  Definition in_F (h : list op) : bool := no_live h && no_clear h.
 
   Theorem run_refine : forall h s a,
     Inv s -> AllReg (live s) (g s) -> Sim s a ->
-    adm_run s h = true -> in_F h = true -> Forall acyclic_op h ->
+    adm_run s h = true -> in_F h = true -> acyclic ->
     Forall2 out_eq (snd (run s h)) (snd (srun a h)).
   Proof.
     induction h as [|o h IH]; simpl; intros s a HI HA HS Ha HF Hac; [constructor|].
     apply andb_true_iff in Ha. destruct Ha as [Ha Hr]. unfold in_F in HF. simpl in HF.
     apply andb_true_iff in HF. destruct HF as [He Hc].
     apply andb_true_iff in He. destruct He as [He He']. apply andb_true_iff in Hc. destruct Hc as [Hc Hc'].
-    apply negb_true_iff in He, Hc. inversion Hac as [|o' h' Hao Hah]; subst.
+    apply negb_true_iff in He, Hc.
     assert (H1 := step_Inv children fuel s o HI Ha).
     assert (H2 := step_AllReg children fuel s o HI Ha Hc HA).
     destruct (step_Sim children fuel s a o HI Ha He HS) as [H3 _].
-    assert (H4 := step_refine s a o HI HA Ha He Hao HS).
+    assert (H4 := step_refine s a o HI HA Ha He Hac HS).
     destruct (step s o) as [s1 x]. destruct (sstep a o) as [a1 x']. simpl in *.
     assert (HF' : in_F h = true) by (unfold in_F; now rewrite He', Hc').
-    specialize (IH s1 a1 H1 H2 H3 Hr HF' Hah).
+    specialize (IH s1 a1 H1 H2 H3 Hr HF' Hac).
     destruct (run s1 h) as [s2 xs]. destruct (srun a1 h) as [a2 xs']. simpl in *. constructor; auto.
   Qed.
 
   (* from the fresh process *)
   Theorem model_refines_spec h :
-    adm_run init h = true -> in_F h = true -> Forall acyclic_op h ->
+    adm_run init h = true -> in_F h = true -> acyclic ->
     Forall2 out_eq (snd (run init h)) (snd (srun a_init h)).
   Proof.
     intros. apply run_refine; auto.
